@@ -699,13 +699,24 @@ func main() {
 		os.Exit(97)
 	}
 	verifsim.InstallFS(sc.Files)
+	// the same files exist for real in the working directory, so a driver
+	// that reads them through another API than ReadFile still finds them
+	// (only an I/O error needs the seam; it degrades to "no such file")
+	for name, f := range sc.Files {
+		switch f.Fault {
+		case "":
+			os.WriteFile(name, f.Data, 0644)
+		case "eisdir":
+			os.Mkdir(name, 0755)
+		}
+	}
 	verifsim.DriverHardCap = sc.HardCap
 	os.Args = append([]string{"evalfilter"}, sc.Args...)
 	if sc.StatFile != "" {
 		verifsim.ExitHook = func(code int) {
 			st := map[string]interface{}{"reads": verifsim.ReadCalls, "timers": verifsim.TimerCalls}
 			if c := verifsim.DriverCtx; c != nil {
-				st["polls"], st["fired"], st["hitcap"], st["fired_at"] = c.Polls, c.Fired(), c.HitCap, c.FiredAt
+				st["polls"], st["ticks"], st["fired"], st["hitcap"], st["fired_at"], st["runaway"] = c.Polls, c.Ticks, c.Fired(), c.HitCap, c.FiredAt, c.Runaway
 			}
 			b, _ := json.Marshal(st)
 			os.WriteFile(sc.StatFile, b, 0644)
